@@ -21,7 +21,8 @@ RULE = (
     "tree), C13 (all constructs) and C11 (simple + 1-2 operator compound) x their document sets (strings and scalars reached by "
     "wildcard, slice, descendant and filter selectors included) x {plain document, Mapping/Sequence proxies with "
     "__getitem_async__}: findall_async, finditer_async (compiled and environment level) must give the same sequence of "
-    "(value, path, parts) as finditer, or raise the same error class. SCH: 8 harnesses of 2-3 tasks (shared compiled query on "
+    "(value, path, parts) as finditer, or raise the same error class; the same for documents given as JSON text, StringIO and "
+    "BytesIO (compound queries on container documents; C11's TXT queries on documents that are not containers). SCH: 8 harnesses of 2-3 tasks (shared compiled query on "
     "documents that differ in the cached sub-expression, same document, different queries, compound queries, finditer_async "
     "consumers, filter context), every schedule with <=1 (thorough <=3) preemptions; each task must return its sync result. "
     "state = distinct (query, document, form) or schedule; non-trivial = non-empty sync result"
@@ -66,6 +67,12 @@ def eq_queries(tier):
     # two-operator compound queries (every 5th in quick, all in thorough): late binding needs >= 2 intersections
     for parts in qs11[8 + 128: 8 + 128 + 2048][:: (5 if tier == "quick" else 1)]:
         out.append(("c11", c11.text_of(parts)))
+    # documents given as JSON text and as file objects: compound queries on container documents (a file can be read
+    # once), and the queries of C11's TXT space on documents that are not containers
+    for parts in qs11[8: 8 + 128][:: (2 if tier == "quick" else 1)]:
+        out.append(("file", c11.text_of(parts)))
+    for parts in c11.txt_queries(tier):
+        out.append(("txt", c11.text_of(parts)))
     # member names that need escaping in normalized paths, under every selector kind
     from ..gen import matchspace
     for nm in NASTY_NAMES:
@@ -168,9 +175,58 @@ def run_shard(shard, acc):
         _schedules(hi, bound, acc)
 
 
+def _eq_forms(family, text, acc, record=True, only_doc=None):
+    """The document as JSON text, StringIO and BytesIO: async entry points against the sync ones on the same input."""
+    import io
+    import json
+
+    import jsonpath
+
+    try:
+        p = jsonpath.compile(text)
+    except Exception:  # noqa: BLE001
+        return
+    texts = list(c11.TXT_DOCS) if family == "txt" else [json.dumps(d) for d in c11.NESTED]
+    for di, t in enumerate(texts):
+        if only_doc is not None and di != only_doc:
+            continue
+        ref = _sync(p, t, None)
+        bad = None
+        for form, mk in (("text", lambda: t), ("StringIO", lambda: io.StringIO(t)), ("BytesIO", lambda: io.BytesIO(t.encode()))):
+            a = _async_iter(p, mk(), None)
+            if a != ref:
+                bad = ("finditer_async(%s)" % form, a)
+                break
+            b = _async_all(p, mk(), None)
+            want = ("ok", [x[0] for x in ref[1]]) if ref[0] == "ok" else ref
+            if b != want:
+                bad = ("findall_async(%s)" % form, b)
+                break
+            try:
+                c = ("ok", [ckey(v) for v in sched.run_coro(jsonpath.findall_async(text, mk()))])
+            except jsonpath.JSONPathError as e:
+                c = ("error", type(e).__name__)
+            except Exception as e:  # noqa: BLE001
+                c = ("exception", "%s: %s" % (type(e).__name__, e))
+            if c != want:
+                bad = ("env.findall_async(%s)" % form, c)
+                break
+        if record:
+            acc.case("EQ", (text, di, family), outcome=ref if ref[0] != "ok" else tuple(x[0] for x in ref[1]),
+                     nontrivial=ref[0] == "ok" and bool(ref[1]), trans=9)
+            acc.count("EQ.%s.forms" % family)
+        if bad:
+            acc.violation("EQ", "differs." + bad[0], {"family": family, "query": text, "doc": t, "di": di, "form": "forms"},
+                          expected=_show(ref), observed=_show(bad[1]))
+            return
+
+
 def _eq(family, text, acc, record=True, only_doc=None):
     import jsonpath
 
+    if family in ("file", "txt"):
+        _eq_forms(family, text, acc, record, only_doc)
+        return
     try:
         p = jsonpath.compile(text)
     except Exception:  # noqa: BLE001  (other properties' business)
@@ -288,7 +344,7 @@ def _show2(x):
     return [x[0], repr(x[1])[:200]]
 
 
-REQUIRE = {"EQ.c01.plain": 100, "EQ.c01.proxy": 100, "EQ.c02.proxy": 100, "EQ.c13.proxy": 100, "EQ.c11.proxy": 100, "EQ.c03.proxy": 100,
+REQUIRE = {"EQ.file.forms": 100, "EQ.txt.forms": 100, "EQ.c01.plain": 100, "EQ.c01.proxy": 100, "EQ.c02.proxy": 100, "EQ.c13.proxy": 100, "EQ.c11.proxy": 100, "EQ.c03.proxy": 100,
            "SCH.schedules": 50, "SCH.preemptions=1": 20}
 
 
